@@ -38,7 +38,7 @@ class RunCtx:
         key = (race, instrument)
         if key not in self._exe:
             t0 = time.time()
-            exe, out = vlib.build_harness(race=race, instrument=instrument)
+            exe, out = vlib.build_harness(race=race, instrument=instrument, pid=self.pid)
             if exe is None:
                 raise HarnessBuildError(out)
             log("harness %s built in %.1fs (%s)" % ("race" if race else "plain", time.time() - t0, out.strip().split("\n")[-1][:80] if out.strip() else "ok"))
